@@ -1627,7 +1627,18 @@ fn sub_c06_continued(input: &[u8], st: &mut Stats) -> R {
     for _ in 0..rounds {
         let (m, prev) = it.finish()?;
         let all_ids = prev.env.ids.clone();
-        it = Interp::continue_from(prev, m, None)?;
+        // one time in three the module handed over carries a bound far above its ids (a bound only
+        // has to exceed them), so that the ids of the second phase are large: beyond 2^22, 2^24, 2^31
+        let cur = m.header.as_ref().map(|h| h.bound).unwrap_or(0);
+        let raised = if cs.below(3) == 0 {
+            Some([0x3f_fff0u32, 0x3f_ffff, 0x40_0000, 0x40_0001, 0x100_0000, 0x7fff_ff00, 0x8000_0000, 0xfff0_0000][cs.below(8)]).filter(|r| *r > cur)
+        } else {
+            None
+        };
+        if raised.is_some() {
+            st.count("continued_with_raised_bound");
+        }
+        it = Interp::continue_from(prev, m, raised)?;
         it.env.ids = all_ids;
         it.version = None;
         complete_history(&mut cs, &mut it, st, None)?;
